@@ -477,6 +477,18 @@ class Dataset:
         return Dataset([Ranking([bucket.intersection(elements_to_keep) for bucket in ranking
                                  if bucket.intersection(elements_to_keep)]) for ranking in self.rankings])
 
+    def _buckets_with_own_elements(self, ranking: Ranking) -> List[Set[Element]]:
+        """
+        A Dataset built on a subset of the elements homogenises the types of its elements again (names that are all
+        integer-like become int). This function gives the buckets of a ranking computed on such a sub-problem with the
+        elements of this Dataset, so that element identities and types are preserved.
+
+        :param ranking: a ranking whose elements are, up to their type, elements of this Dataset
+        :return: the buckets of the ranking, with the elements of this Dataset
+        """
+        own_elements: Dict[str, Element] = {str(element): element for element in self._mapping_element_id}
+        return [{own_elements[str(element)] for element in bucket} for bucket in ranking]
+
     def sub_problem_from_ids(self, id_elements_to_keep: Set[int]) -> 'Dataset':
         """
         Generates a sub-problem Dataset by projecting the original Dataset on a given set of int IDs of elements.
